@@ -40,7 +40,7 @@ def classify(r, rd, exp):
 
 def run(ctx):
     out = ctx.go_test("internal/fuse", "^TestVerif_C46$", timeout=2400)
-    n, bad, lines = ctx.check_records("Fn_FuseRead", os.path.join(out, "recs.ndjson"), shard=ctx.pick(100, 150), timeout=1500)
+    n, bad, lines = ctx.check_records("Fn_FuseRead", os.path.join(out, "recs.ndjson"), shard=ctx.pick(400, 1000), timeout=1500)
     seen = {}
     for i in bad:
         r = json.loads(lines[i - 1])
@@ -67,6 +67,6 @@ def run(ctx):
     return verif.finish(ctx, "exploration", cov,
                         ["Fn_FuseRead.tla (content = concatenation of the blobs; Read(off,n) = content[off, min(off+n,len)), empty past the end) is the oracle; TLC evaluates RecOK on one record per opened file carrying all its reads",
                          "handler level: real file.Open + openFile.Read called like the FUSE server does (response buffer of capacity req.Size); no kernel mount",
-                         "small layouts: every layout of <= 4 (thorough 5) blobs with sizes 0..3 (thorough also sizes up to 4), distinct and repeated blobs, all (offset,size) <= len+2; bytes passed to TLC verbatim",
+                         "small layouts: every layout of <= 4 blobs with sizes 0..3 (thorough: <= 5 blobs with sizes 0..4), distinct and repeated blobs, all (offset,size) <= len+2; bytes passed to TLC verbatim",
                          "large layouts (<= 10 blobs up to 3000 bytes, and 512 KiB..2 MiB blobs): file byte p is p%251 and the response is passed to TLC as lossless run encoding",
                          "declared node sizes: exact, zero, larger, smaller (Open corrects it); concurrent case: 8 goroutines on one handle with a 4000-byte blob cache"])
